@@ -17,31 +17,38 @@ class C03(Prop):
         "Stgutg.Props.C03.octet_string_eq", "Stgutg.Props.C03.choice_index_eq",
         # (b) composite types, every schema passing specOK
         "Stgutg.Props.C03.encode_eq_spec", "Stgutg.Props.C03.encode_refuses",
+        "Stgutg.Props.C03.encode_complete", "Stgutg.Props.C03.encode_iff",
         "Stgutg.Proofs.AperSpec.encode_eq_spec", "Stgutg.Proofs.AperSpec.nonEmptyEnc_sound",
-        "Stgutg.Proofs.AperSpec.marshal_eq_spec", "Stgutg.Proofs.AperSpec.marshal_refuses",
+        "Stgutg.Proofs.AperSpec.encode_complete",
+        "Stgutg.Proofs.AperSpec.marshal_eq_spec", "Stgutg.Proofs.AperSpec.marshal_refuses", "Stgutg.Proofs.AperSpec.marshal_iff",
         # (c) the regenerated NGAP schema
-        "Stgutg.Props.C03.ngap_schema_specOK", "Stgutg.Props.C03.pdu_params_ok", "Stgutg.Props.C03.valueExt_params_ok",
+        "Stgutg.Props.C03.ngap_schema_specOK", "Stgutg.Props.C03.ngap_schema_specOKc",
+        "Stgutg.Props.C03.pdu_params_ok", "Stgutg.Props.C03.pdu_params_okc",
+        "Stgutg.Props.C03.valueExt_params_ok", "Stgutg.Props.C03.valueExt_params_okc",
+        "Stgutg.Props.C03.C03_encode_iff", "Stgutg.Props.C03.C03_encodes_conforming",
         "Stgutg.Props.C03.C03_encode_canonical", "Stgutg.Props.C03.C03_refuses",
-        "Stgutg.Props.C03.C03_container_canonical", "Stgutg.Props.C03.C03_container_refuses",
+        "Stgutg.Props.C03.C03_container_iff", "Stgutg.Props.C03.C03_container_canonical", "Stgutg.Props.C03.C03_container_refuses",
+        "Stgutg.Props.C03.integer_out_of_range",
     ]
     domains = [Domain("aper-enc", 600, 30000)]
     rule = ("aper-enc: type-directed random values over the real ngapType structs (all message types through NGAPPDU's open types, "
             "transfer containers, every leaf wrapper type at lb, ub, lb+1, ub-1 and power-of-two boundaries), one in eight with exactly one "
             "injected constraint violation (integer/size/enum out of range, Present 0 / too large, nil mandatory pointer, open type "
             "reference mismatch); non-trivial = value with at least 12 tokens; distinct by op line")
-    level_text = ("Theorems (Lean 4, no schema-specific reasoning): for every schema passing the decidable specOK (decided for the regenerated "
+    level_text = ("Theorems (Lean 4, generic in the schema): for every schema passing the decidable specOK/specOKc (decided for the regenerated "
                   "NGAP schema by the kernel), every type/parameter string and every regular value (int64 integers, BitString with "
                   "ceil(n/8) octets, CHOICE with only the selected alternative set, strings and open-type contents below 16384 units), "
-                  "whatever bits the encoder model (marshal.go, branch for branch) produces are the bits the X.691 ALIGNED PER "
-                  "specification prescribes (encode_eq_spec, C03_encode_canonical, C03_container_canonical), and a value the specification "
-                  "does not encode is not put on the wire (encode_refuses, C03_refuses); per-clause theorems for constrained whole numbers, "
-                  "length determinants, INTEGER, ENUMERATED, BIT/OCTET STRING, CHOICE index; struct tags = hand-transcribed TS 38.413 "
-                  "constraints for 150 simple + 32 list types (tags_are_ts38413); model tied to marshal.go by the differential run, which also "
-                  "compares the implementation with the specification oracle directly")
+                  "the encoder model (marshal.go, branch for branch) returns bits exactly when the X.691 ALIGNED PER specification "
+                  "defines an encoding, and then returns that encoding (encode_iff, C03_encode_iff, C03_container_iff); corollaries: "
+                  "what the model writes is canonical (encode_eq_spec, C03_encode_canonical), a value the specification does not encode "
+                  "is not put on the wire (encode_refuses, C03_refuses), conforming values are not refused (encode_complete); per-clause "
+                  "equivalences for constrained whole numbers, length determinants, INTEGER, ENUMERATED, BIT/OCTET STRING, CHOICE index; "
+                  "struct tags = hand-transcribed TS 38.413 constraints for 150 simple + 32 list types (tags_are_ts38413); model tied to "
+                  "marshal.go by the differential run, which also compares the implementation with the specification oracle directly")
     technique = "Lean 4 proof (encoder model = X.691 specification, generic in the schema) + kernel-decided schema predicate + schema translator + differential correspondence"
-    partial_note = ("completeness (the model never refuses a value the specification encodes; Props.C03.EncodeCompleteStatement) is not proved: "
-                    "decided by the differential run only (impl vs spec oracle on conforming values); fragmented lengths (>= 16384) are outside "
-                    "the theorems as the property arranges; constraints of the types not tabled in Spec/Ts38413Leaf are trusted from the tags")
+    partial_note = ("fragmented lengths (>= 16384) are outside the theorems as the property arranges (decided differentially under their own "
+                    "finding key); constraints of the types not tabled in Spec/Ts38413Leaf are trusted from the tags; the tie between the "
+                    "encoder model and marshal.go is differential, not proved")
     assumptions = ["values are regular Go representations (Stgutg.Proofs.AperSpec.regular): int64 integers, BitString.Bytes of exactly "
                    "ceil(BitLength/8) octets, CHOICE structs with only the selected alternative non-nil",
                    "every string is shorter than 16384 units and every open-type content shorter than 16384 octets (no fragmentation)"]
